@@ -175,6 +175,12 @@ def check_local_time(acc, t, off, us, mods, stdlib=True):
         acc.c["evaluations"] += 1
         if b != exp:
             acc.mismatch("local_time.rs", "vs-stdlib", case, b, exp)
+    # the name the library itself imports (pendulum.helpers.local_time: whichever back end is configured, through any wrapper)
+    import pendulum.helpers as ph
+    c = _prim(lambda: tuple(ph.local_time(t, off, us)))
+    acc.c["evaluations"] += 1
+    if c != exp:
+        acc.mismatch("local_time.public", "vs-stdlib", case, c, exp)
 
 
 # ------------------------------------------------------------------------------ shards
@@ -241,6 +247,11 @@ def run_shard(shard):
                 check_local_time(acc, base + s, off, s % 1000000, mods)
                 acc.c["transitions"] += 1
         acc.c["states"] += 1
+        # the epoch itself and its neighbours (falsy / negative arguments) at every offset
+        for off in shard["offsets"]:
+            for t in (0, -1, 1, -off, -off - 1):
+                check_local_time(acc, t, off, 0, mods)
+                check_local_time(acc, t, off, 999999, mods)
         # float timestamps with a fraction (floor semantics, also for negatives)
         for off in (0, -3600):
             for frac in (0.25, 0.5, 0.999999):
